@@ -2,7 +2,6 @@ package p2pmux
 
 import (
 	"context"
-	"encoding/binary"
 	"sync"
 
 	"github.com/pkg/errors"
@@ -225,9 +224,9 @@ func (ms *muxedSwarm[A, C, Pub]) ParseAddr(data []byte) (A, error) {
 }
 
 func (ms *muxedSwarm[A, C, Pub]) MTU() int {
-	m := ms.m.swarm.MTU()
-	n := binary.PutVarint(make([]byte, binary.MaxVarintLen64), int64(m))
-	return m - n
+	// the overhead is the header which muxFunc prepends for this channel
+	overhead := p2p.VecSize(ms.m.muxFunc(ms.cid, nil))
+	return ms.m.swarm.MTU() - overhead
 }
 
 func (ms *muxedSwarm[A, C, Pub]) LookupPublicKey(ctx context.Context, target A) (Pub, error) {
